@@ -29,7 +29,7 @@ NSHARDS = 16
 
 
 def plan(tier, seed):
-    n = 6000 if tier == "quick" else 400000
+    n = 16000 if tier == "quick" else 1200000
     per = n // NSHARDS
     specs = [{"kind": "random", "start": p * per, "count": per} for p in range(NSHARDS)]
     specs += [{"kind": "lattice", "part": p, "parts": 8, "maxm": 9 if tier == "quick" else 13} for p in range(8)]
